@@ -35,7 +35,9 @@ def _strategy(stat):
                 n = 2**20 + 4097  # beyond a million draws (block-wise generation)
             case = {"D": D, "R": R, "n": n, "stat": stat, "p": draw(gen.measure_params("pdf", R, D, kappa)),
                     "seed": draw(st.integers(0, 2**31 - 1)), "seed2": draw(st.integers(0, 2**31 - 1)),
-                    "typed_key": draw(st.booleans()), "diag": False}
+                    "typed_key": draw(st.booleans()), "diag": False,
+                    # PRNG implementation of typed keys: threefry (default) or the RBG variants ("arbitrary keys")
+                    "key_impl": draw(st.sampled_from([None, None, None, "rbg", "unsafe_rbg"]))}
             # far-mean regime: the mean lies 1e4 / 1e6 standard deviations away from the origin
             far = draw(st.sampled_from([0.0] * 5 + [1e4, 1e6]))
             if far:
@@ -56,7 +58,9 @@ def _strategy(stat):
 def _key(case, seed):
     import jax
 
-    return jax.random.key(seed) if case["typed_key"] else jax.random.PRNGKey(seed)
+    if case["typed_key"]:
+        return jax.random.key(seed, impl=case["key_impl"]) if case.get("key_impl") else jax.random.key(seed)
+    return jax.random.PRNGKey(seed)
 
 
 def _statistical(fails, x, mu, Sig, tag):
@@ -216,7 +220,7 @@ def _nontrivial(case):
 
 
 def _labels(case):
-    out = [f"n={case['n']}", "typed_key" if case["typed_key"] else "legacy_key", "after_update" if case.get("update") is not None else "fresh", f"far_mean={case.get('far', 0.0):g}"]
+    out = [f"n={case['n']}", ("typed_key:" + (case.get("key_impl") or "threefry")) if case["typed_key"] else "legacy_key", "after_update" if case.get("update") is not None else "fresh", f"far_mean={case.get('far', 0.0):g}"]
     if "_structural" in case:
         out.append("structural_match" if case["_structural"] else "structural_mismatch->statistical")
     return out
